@@ -36,6 +36,8 @@ pub fn ser_err(e: &ChunkSerializationError) -> String {
         ChunkSerializationError::InvalidMaxChunkSize { attempted_chunk_size } => format!("E:BadChunkSize:{}", attempted_chunk_size),
         ChunkSerializationError::Io(_) => "E:Io".into(),
         ChunkSerializationError::SetChunkSizeMessageCreationFailure(_) => "E:SetChunkSizeMessage".into(),
+        #[allow(unreachable_patterns)]
+        _ => "E:Other".into(),
     }
 }
 
@@ -45,6 +47,8 @@ pub fn de_err(e: &ChunkDeserializationError) -> String {
         ChunkDeserializationError::InvalidMaxChunkSize { chunk_size } => format!("E:BadChunkSize:{}", chunk_size),
         ChunkDeserializationError::InvalidMessageLength { csid, length } => format!("E:BadLen:{}:{}", csid, length),
         ChunkDeserializationError::Io(_) => "E:Io".into(),
+        #[allow(unreachable_patterns)]
+        _ => "E:Other".into(),
     }
 }
 
